@@ -18,6 +18,7 @@
 # the LICENSES folder.
 
 from dataclasses import dataclass
+from math import isinf
 from string import (
     ascii_letters,
     ascii_lowercase,
@@ -32,7 +33,10 @@ from typing import (
     Type,
     Union,
 )
-from pyimpspec.exceptions import UnexpectedCharacter
+from pyimpspec.exceptions import (
+    TokenizingError,
+    UnexpectedCharacter,
+)
 
 
 @dataclass(frozen=True)
@@ -309,6 +313,12 @@ class Tokenizer:
 
         if Class is Number or Class is FixedNumber:
             value = float(self._value)
+            if isinf(value):
+                # E.g., "1e400", which cannot be represented and would not
+                # survive being written back as a circuit description code.
+                raise TokenizingError(
+                    f"Expected a number within the range of a float instead of '{self._value}'"
+                )
         else:
             value = self._original[self._start:self._end]
 
